@@ -412,7 +412,7 @@ func init() {
 		c.rep.Extra = map[string]interface{}{"site_hits": hits, "site_misses": misses, "hits_per_call_site": perSite}
 		n, ops, prob, max := 8, 250, 2, 1000
 		if !quick {
-			n, ops, prob, max = 40, 500, 2, 9000
+			n, ops, prob, max = 100, 600, 6, 10000
 		}
 		c.walk(u, walkOpts{Worlds: n, Ops: ops, Proj: proj, Monitors: []monitor{monC04, monC04Count}, Tune: c04Tune, EmitProb: prob, MaxCases: max})
 	}
